@@ -24,6 +24,16 @@ Theorem eq_iff : forall val py_eq keyf attrs (x y : inst val),
 Proof. exact eq_iff_l. Qed.
 Print Assumptions eq_iff.
 
+(** [__eq__] of a class is the interpretation of the script [make_eq_script] derives from its
+    field list (the script the harness compares with the real generated source text). *)
+Theorem eq_is_script : forall val py_eq keyf attrs (x y : inst val),
+  i_cls y = i_cls x ->
+  gen_eq val py_eq keyf attrs x (OInst y) =
+    (RV (fst (and_chain val py_eq (script_operands val keyf (make_eq_script attrs) x y))),
+     snd (and_chain val py_eq (script_operands val keyf (make_eq_script attrs) x y))).
+Proof. exact gen_eq_is_script_l. Qed.
+Print Assumptions eq_is_script.
+
 (** nothing is evaluated after the first falsy [==] *)
 Theorem eq_short_circuit : forall val py_eq ps,
   snd (and_chain val py_eq ps) = upto_falsy val py_eq ps /\
